@@ -687,7 +687,10 @@ theorem compMass_labelled (menv : Pept.Env) (K : Elem → Prop) (dl : Mod → Op
       unfold sequenceComp
       have c1 : carrierCheck (popped dl (relabelled b ch iso)) t = .ok () := by
         unfold carrierCheck
-        have : (popped dl (relabelled b ch iso)).adducts = none := hpl.adducts
+        have : effAdducts (popped dl (relabelled b ch iso)) = none := by
+          unfold effAdducts
+          have ha : (popped dl (relabelled b ch iso)).adducts = none := hpl.adducts
+          rw [ha]
         rw [this]
         simp only [hcc, if_true]
         rfl
@@ -698,7 +701,10 @@ theorem compMass_labelled (menv : Pept.Env) (K : Elem → Prop) (dl : Mod → Op
         simp only [bind, Except.bind, hadj]
         have : carrierComp (popped dl (relabelled b ch iso)) t = .ok car := by
           unfold carrierComp
-          have ha : (popped dl (relabelled b ch iso)).adducts = none := hpl.adducts
+          have ha : effAdducts (popped dl (relabelled b ch iso)) = none := by
+            unfold effAdducts
+            have ha' : (popped dl (relabelled b ch iso)).adducts = none := hpl.adducts
+            rw [ha']
           have hc : (popped dl (relabelled b ch iso)).charge = some ch := rfl
           rw [ha, hc]
           exact hcar
@@ -714,8 +720,12 @@ theorem compMass_labelled (menv : Pept.Env) (K : Elem → Prop) (dl : Mod → Op
       rw [c1, c2]
       simp only [hres.notB, hres.notZ, bind, Except.bind, Bool.false_eq_true, if_false, c3, m1, c4]
       rfl
+    have ep : staticProbe menv (relabelled b ch iso) = .ok () := by
+      unfold staticProbe
+      have : (relabelled b ch iso).static = none := hpl.static
+      rw [this]; rfl
     rw [e0]
-    simp only [e1, bind, Except.bind, e2, e3, e4, e5]
+    simp only [ep, e1, bind, Except.bind, e2, e3, e4, e5]
     rfl
   · have m2' : chemMassL μ mc = optC μ cp (b.nterm.map (keep dl)) + optC μ cp (b.cterm.map (keep dl)) +
         intC μ cp (b.internal.map (keepInt dl)) := m2
